@@ -151,6 +151,10 @@ var checks = map[string]checkCfg{
 		Rule:        "each case draws MaxFileSize M from {1,2,100,4096,65537,2^31,2^40}, whether it is set at construction or at runtime, and 2-14 WRITE / SETATTR(size) requests whose end offset is M-1, M, M+1, 2M, 2^62, M/2, 1, M+5000 or 0; every request is also sent to a twin server without limit when it stays within M; non-trivial = a request whose resulting size is within +-1 of M; distinct = FNV-64 of the case JSON",
 		Assumptions: baseAssumptions,
 		Phases:      []phase{rp("rapid", "^TestC25$", 4, 500, 16, 5000)}},
+	"C26": {Level: "exploration", Technique: "rapid directories x count values; cookie-following client; set equality + XDR size bound oracle",
+		Rule:        "each case draws a directory of 0-80 entries with name lengths over 1..255 (many at 255), READDIR or READDIRPLUS, and count / (dircount, maxcount) from {0,1,100,103,104,127,128,129,131,132,200,300,332,400,512,1024,4096,8192,65536,2^32-1}; the client follows cookies until eof, TOOSMALL or n+3 calls; non-trivial = the listing needed >=2 pages or the limit was below one entry (TOOSMALL); distinct = FNV-64 of the case JSON",
+		Assumptions: append([]string{"the size limit is compared with the encoded resok without the status word (the more lenient reading of RFC 1813); dircount is not judged", "when nothing remains to be listed and even the resok header exceeds count, OK and TOOSMALL are both accepted"}, baseAssumptions...),
+		Phases:      []phase{rp("rapid", "^TestC26$", 4, 500, 16, 5000)}},
 	"C02": {Level: "exploration", Technique: "rapid histories vs POSIX tree model + cached-vs-uncached differential",
 		Rule:        "cases are rapid-generated sequential histories of LOOKUP/CREATE/MKDIR/SYMLINK/REMOVE/RMDIR/RENAME/READDIR(PLUS)/GETATTR/READLINK over names {a,b,c} to depth 3, addressed through every handle ever issued (stale ones included); each history runs under the all-off baseline and k cached configurations (quick 3, thorough 6 of 15); non-trivial = a read-type request on a name or directory affected by an earlier successful mutation, executed under a configuration with at least one cache on; distinct = FNV-64 of the case JSON",
 		Assumptions: append([]string{"documented latitude L1-L7 of DESIGN.md §5 C02 (REMOVE of empty dir, UNCHECKED/EXCLUSIVE on existing objects, error code identity not compared against the model, path-bound handles)"}, baseAssumptions...),
